@@ -152,7 +152,7 @@ static void pmake_invalid(phist *h, cop *o, uint32_t *mode, vh_rng *r)
         case 1: o->len = 0; o->cls = "key-len-0"; break;
         case 2: o->len = c->key_min - 1 - vh_below(r, 3); o->cls = "key-too-short"; break;
         case 3: o->len = c->key_max + 1 + vh_below(r, 3); o->cls = "key-too-long"; break;
-        case 4: o->len = big[vh_below(r, 5)]; o->cls = "key-len-huge"; break;
+        case 4: o->len = vh_below(r, 2) ? big[vh_below(r, 5)] : vh_wrap_len(r, c->key_min, c->key_max); o->cls = "key-len-huge"; break;
         case 5: o->len = 16; o->rounds = vh_below(r, 5); o->cls = "mantis-rounds-low"; break;
         default: o->len = 16; o->rounds = vh_below(r, 2) ? 9 + vh_below(r, 4) : big[vh_below(r, 5)]; o->cls = "mantis-rounds-high"; break;
         }
